@@ -18,19 +18,19 @@ def true_values(bars, grid, depth):
     return [[landscape_f(bars, k, t) for t in grid] for k in range(depth)]
 
 
-def approx(bars, start, stop, num_steps):
+def approx(bars, start, stop, num_steps, dtype=float):
     from persim.landscapes import PersLandscapeApprox
     with warnings.catch_warnings():
         warnings.simplefilter("ignore")
         import contextlib, io
         with contextlib.redirect_stdout(io.StringIO()):
-            return PersLandscapeApprox(dgms=[np.array(bars, dtype=float)], start=start, stop=stop, num_steps=num_steps, hom_deg=0)
+            return PersLandscapeApprox(dgms=[np.array(bars, dtype=dtype)], start=start, stop=stop, num_steps=num_steps, hom_deg=0)
 
 
-def check_grid(rep, bars, start, stop, num_steps, origin):
-    inp = {"bars": bars, "start": start, "stop": stop, "num_steps": num_steps}
+def check_grid(rep, bars, start, stop, num_steps, origin, dtype=float):
+    inp = {"bars": bars, "start": start, "stop": stop, "num_steps": num_steps, "dtype": np.dtype(dtype).name}
     try:
-        A = approx(bars, start, stop, num_steps)
+        A = approx(bars, start, stop, num_steps, dtype)
     except Exception as ex:
         rep.violation("PersLandscapeApprox raised %r on %s" % (ex, inp), "approx:exception", {"input": inp, "observed": repr(ex)})
         return False
@@ -160,7 +160,7 @@ def e2(rep, nb, start, stop, num_steps, budget):
 def _standin(rep, tier, seed):
     rng = random.Random(seed * 59 + 8)
     evals, distinct = 0, set()
-    for _ in range(250 if tier == "quick" else 6000):
+    for _k in range(250 if tier == "quick" else 6000):
         num_steps = rng.choice([2, 3, 4, 5, 6, 9, 11, 21, 50])
         start = rng.choice([0.0, -1.0, 0.5])
         stop = start + rng.choice([1.0, 4.0, 5.0, 10.0])
@@ -179,6 +179,14 @@ def _standin(rep, tier, seed):
         check_grid(rep, bars, start, stop, num_steps, "random")
         evals += 1
         distinct.add((num_steps, nb, on, start, stop))
+        if _k % 4 == 0:
+            # the same statement for diagrams stored as integers or in single precision (integer bars on grids whose nodes are not integers)
+            ibars = [[float(rng.randint(0, 6)), 0.0] for _i in range(rng.randint(1, 4))]
+            ibars = [[b, b + rng.randint(1, 6)] for b, _d in ibars]
+            ns2 = rng.choice([6, 10, 11, 14, 25])
+            check_grid(rep, ibars, 0.0, 12.0, ns2, "integer-typed", dtype=rng.choice([int, np.int32, np.float32]))
+            evals += 1
+            distinct.add(("typed", ns2, len(ibars)))
     # transformer == approximate class; death vector; vectorize == interpolation of the exact critical pairs
     from persim.landscapes import PersLandscapeApprox, PersLandscapeExact, PersistenceLandscaper, death_vector, vectorize
     import contextlib, io
